@@ -7,6 +7,7 @@ import (
 	"fmt"
 	"os"
 	"reflect"
+	"strings"
 	"testing"
 	"time"
 
@@ -45,6 +46,17 @@ var interestingTags = []byte{'N', 'T', 'F', 'I', 'L', 'D', 'S', 'R', 'B', 'b', '
 
 // the byte strings of the repository's tests that came from a Java peer, and the
 // examples quoted in the source headers
+// c14Small: the fixed inputs of at most 256 octets (cheap enough to be thrown into histories and plans).
+func c14Small() [][]byte {
+	var out [][]byte
+	for _, b := range c14Fixed() {
+		if len(b) <= 256 {
+			out = append(out, b)
+		}
+	}
+	return out
+}
+
 func c14Fixed() [][]byte {
 	var out [][]byte
 	for _, s := range []string{
@@ -55,23 +67,44 @@ func c14Fixed() [][]byte {
 		out = append(out, b)
 	}
 	for _, h := range []string{
-		"579091" + "5a",                         // x57 x90 x91 Z
-		"5200016153000568656c6c6f",             // R x00 x01 a S x00 x05 hello
-		"56045b696e74929091",                   // V [int 2 0 1
-		"72045b696e749091" + "7390929394",      // x72 [int 0 1 ; x73 type-ref#0 2 3 4
+		"579091" + "5a",                   // x57 x90 x91 Z
+		"5200016153000568656c6c6f",        // R x00 x01 a S x00 x05 hello
+		"56045b696e74929091",              // V [int 2 0 1
+		"72045b696e749091" + "7390929394", // x72 [int 0 1 ; x73 type-ref#0 2 3 4
 		"430b6578616d706c652e43617292" + "05636f6c6f72056d6f64656c" + "4f9003726564" + "08636f727665747465", // C example.Car 2 color model O x90 red corvette
-		"48910366656561a0036669655a",           // H 1 fee ... Z (truncated variant)
+		"48910366656561a0036669655a", // H 1 fee ... Z (truncated variant)
 		"4d13636f6d2e63617563686f2e746573742e43617205636f6c6f720a617175616d6172696e655a",
 		"4300905a", "4f90", "5190", "51ff", "60", "6f", "4fc8ff", "7fffffffff", "58497fffffff", "56004990", "5500", "4d00", "4d90", "4300" + "497fffffff",
-		"71065b696e74333279" + "5191", // typed int list whose element is a list containing itself
-		"71055b74726565795191",                     // "[tree" (type Tree []Tree) holding a list that contains itself
-		"4d016a0161480173" + "51915a5a",            // "j" (type JMap map[string]JMap) holding a map that contains itself
+		"71065b696e74333279" + "5191",                   // typed int list whose element is a list containing itself
+		"71055b74726565795191",                          // "[tree" (type Tree []Tree) holding a list that contains itself
+		"4d016a0161480173" + "51915a5a",                 // "j" (type JMap map[string]JMap) holding a map that contains itself
 		"43046e6f64659201610173" + "60" + "90" + "5190", // object whose string field is a ref to itself
 		"7a7a5190", "5751905a", "4851905190" + "5a", "7851" + "90", "79795191", "48790151915a",
 		"4a0000000000000000", "4bffffffff", "4400", "5f", "52ffff", "53ffff61", "42ffff", "62ffff00", "33ff", "2f",
 	} {
 		b, _ := hex.DecodeString(h)
 		out = append(out, b)
+	}
+	// type names that are not registered but look derivable: '[' repeated k times in front of an element name
+	for _, k := range []int{3, 50, 1000, 4000, 20000, 60000} {
+		for _, elem := range []string{"int", "Inner", "string"} {
+			name := strings.Repeat("[", k) + elem
+			var b []byte
+			b = append(b, 0x72) // typed list of two
+			if len(name) < 32 {
+				b = append(b, byte(len(name)))
+			} else if len(name) < 1024 {
+				b = append(b, 0x30+byte(len(name)>>8), byte(len(name)))
+			} else {
+				b = append(b, 'S', byte(len(name)>>8), byte(len(name)))
+			}
+			b = append(b, name...)
+			b = append(b, 0x90, 0x91)
+			out = append(out, b)
+			if elem != "int" && k > 50 {
+				break
+			}
+		}
 	}
 	// amplification patterns: cost must follow the input, not what it declares or re-uses
 	{
